@@ -2,8 +2,8 @@
 package c12
 
 import (
+	"bytes"
 	"context"
-	"crypto/sha256"
 	"encoding/json"
 	"fmt"
 	"os"
@@ -111,6 +111,25 @@ func levels(u *wl.Universe, events []wl.Event, depth int) [][]*state {
 	return lv
 }
 
+// newContents keeps one state (the first in BFS order) per store content that no shallower level reaches.
+func newContents(u *wl.Universe, shallower [][]*state, ss []*state) []*state {
+	seen := map[string]bool{}
+	for _, l := range shallower {
+		for _, s := range l {
+			seen[s.ref.ContentKey(u)] = true
+		}
+	}
+	var out []*state
+	for _, s := range ss {
+		k := s.ref.ContentKey(u)
+		if !seen[k] {
+			seen[k] = true
+			out = append(out, s)
+		}
+	}
+	return out
+}
+
 // perContent keeps the first n states of each distinct store content (BFS order).
 func perContent(u *wl.Universe, ss []*state, n int) []*state {
 	cnt := map[string]int{}
@@ -170,12 +189,14 @@ func histString(u *wl.Universe, h []wl.Event) string {
 // ---------------------------------------------------------------------------------------------------
 
 type runner struct {
-	u      *wl.Universe
-	name   string
-	b      *wl.Backend
-	cmd    *commands.WriteCommand
-	stores int
-	limit  int
+	u       *wl.Universe
+	name    string
+	b       *wl.Backend
+	cmd     *commands.WriteCommand
+	stores  int
+	limit   int
+	crash   *runner
+	crashDB bool
 }
 
 func newRunner(u *wl.Universe, backend string) *runner {
@@ -183,6 +204,9 @@ func newRunner(u *wl.Universe, backend string) *runner {
 }
 
 func (w *runner) close() {
+	if w.crash != nil {
+		w.crash.close()
+	}
 	if w.b != nil {
 		w.b.Close()
 		w.b = nil
@@ -194,7 +218,11 @@ func (w *runner) ensure() {
 		return
 	}
 	w.close()
-	w.b = wl.Open(w.name, tag)
+	if w.crashDB {
+		w.b = wl.OpenSQLite(tag+"-crash", "wal_autocheckpoint(8)")
+	} else {
+		w.b = wl.Open(w.name, tag)
+	}
 	w.cmd = commands.NewWriteCommand(w.b.DS)
 	w.stores = 0
 }
@@ -470,79 +498,101 @@ outer:
 		st.maxBoundaries = nB
 	}
 
-	// ---- crash images: one fault-free execution on a private database, files copied at every boundary
-	cb := wl.OpenSQLite(tag + "-crash")
-	defer cb.Close()
-	cw := &runner{u: w.u, name: "sqlite", b: cb, cmd: commands.NewWriteCommand(cb.DS), limit: 1 << 30}
+	// ---- crash images: one fault-free execution on the shard's crash database; at every boundary (inside the driver
+	// call, before it reaches SQLite) and after the call returned, db / db-wal / db-shm are read; every byte-distinct
+	// image is written to a directory and reopened by a fresh datastore.
+	cw := w.crashRunner()
 	cl, err := cw.setup(ctx, hist)
 	if err != nil {
 		devs = append(devs, dev{"history-replay-failed@sqlite", err.Error(), Case{Part: "crash", Backend: "sqlite", History: hist, Err: err.Error()}})
 		return devs
 	}
+	cb := cw.b
+	type image struct {
+		files [3][]byte
+		have  [3]bool
+		obs   wl.Obs
+		err   error
+	}
+	var distinct []*image
 	var imgs []sqlfault.Boundary
-	var snapErr error
+	var imgOf []int
 	snap := func(b sqlfault.Boundary) {
-		if err := sqlfault.SnapshotFiles(cb.Path, filepath.Join(cb.Dir, fmt.Sprintf("img%02d", b.K))); err != nil && snapErr == nil {
-			snapErr = err
+		im := &image{}
+		for i, suf := range []string{"", "-wal", "-shm"} {
+			data, err := os.ReadFile(cb.Path + suf)
+			if err == nil {
+				im.files[i], im.have[i] = data, true
+			} else if !os.IsNotExist(err) {
+				panic("c12: snapshot failed: " + err.Error())
+			}
+		}
+		idx := -1
+		for j, d := range distinct {
+			if d.have == im.have && bytes.Equal(d.files[0], im.files[0]) && bytes.Equal(d.files[1], im.files[1]) && bytes.Equal(d.files[2], im.files[2]) {
+				idx = j
+				break
+			}
+		}
+		if idx < 0 {
+			distinct = append(distinct, im)
+			idx = len(distinct) - 1
 		}
 		imgs = append(imgs, b)
+		imgOf = append(imgOf, idx)
 	}
 	werr, log, _ := cw.exec(ctx, cl, e, sqlfault.Plan{Hook: snap})
 	snap(sqlfault.Boundary{K: len(log) + 1, Kind: "RETURNED"})
 	st.evals++
 	st.cleanRuns++
-	if snapErr != nil {
-		panic("c12: snapshot failed: " + snapErr.Error())
-	}
 	_, _, d := cw.checkEventResult(ctx, cl, hist, ref, after, want, why, e, werr)
 	devs = append(devs, d...)
-	// byte-identical images (db, db-wal, db-shm all equal) are read back once; every image is judged
-	type rb struct {
-		obs wl.Obs
-		err error
-	}
-	seenImg := map[string]rb{}
-	for _, b := range imgs {
-		dir := filepath.Join(cb.Dir, fmt.Sprintf("img%02d", b.K))
-		bnd := b.Kind + " " + b.SQL
-		h := imageHash(dir)
-		res, ok := seenImg[h]
-		if !ok {
-			ib, err := wl.OpenSQLiteAt(filepath.Join(dir, filepath.Base(cb.Path)))
-			if err != nil {
-				devs = append(devs, dev{"crash-image-unopenable", err.Error(), mk("crash", b.K, fplan{}, bnd, err, nil)})
-				continue
-			}
-			res.obs, res.err = wl.Observe(ctx, ib.DS, cl.store)
-			ib.Close()
-			seenImg[h] = res
-			st.crashOpened++
+	imgDir := filepath.Join(cb.Dir, "img")
+	for _, im := range distinct {
+		_ = os.RemoveAll(imgDir)
+		if err := os.MkdirAll(imgDir, 0o755); err != nil {
+			panic(err)
 		}
-		st.crashImages++
-		st.evals++
-		if res.err != nil {
-			devs = append(devs, dev{"crash-image-unreadable", res.err.Error(), mk("crash", b.K, fplan{}, bnd, res.err, nil)})
+		base := filepath.Join(imgDir, filepath.Base(cb.Path))
+		for i, suf := range []string{"", "-wal", "-shm"} {
+			if im.have[i] {
+				if err := os.WriteFile(base+suf, im.files[i], 0o644); err != nil {
+					panic(err)
+				}
+			}
+		}
+		ib, err := wl.OpenSQLiteAt(base)
+		if err != nil {
+			im.err = err
 			continue
 		}
-		judge("crash", b.K, fplan{}, bnd, werr, res.obs, b.Kind == "RETURNED" && werr == nil)
+		im.obs, im.err = wl.Observe(ctx, ib.DS, cl.store)
+		ib.Close()
+		st.crashOpened++
+	}
+	for i, b := range imgs {
+		im := distinct[imgOf[i]]
+		bnd := b.Kind + " " + b.SQL
+		st.crashImages++
+		st.evals++
+		if im.err != nil {
+			devs = append(devs, dev{"crash-image-unreadable", im.err.Error(), mk("crash", b.K, fplan{}, bnd, im.err, nil)})
+			continue
+		}
+		judge("crash", b.K, fplan{}, bnd, werr, im.obs, b.Kind == "RETURNED" && werr == nil)
 		st.kinds[b.Kind+"/crash"]++
 		st.nontrivial = append(st.nontrivial, core.Hash("crash", ref.ContentKey(w.u), w.u.EventString(e), fmt.Sprint(b.K)))
 	}
 	return devs
 }
 
-func imageHash(dir string) string {
-	h := sha256.New()
-	ents, _ := os.ReadDir(dir)
-	for _, en := range ents {
-		b, err := os.ReadFile(filepath.Join(dir, en.Name()))
-		if err != nil {
-			return dir // never equal to another image
-		}
-		fmt.Fprintf(h, "%s:%d:", en.Name(), len(b))
-		h.Write(b)
+// crashRunner: the per-shard database on which crash-image executions run (kept small: recycled every 48 writes,
+// WAL checkpointed every 8 pages so that an image is a few hundred KiB).
+func (w *runner) crashRunner() *runner {
+	if w.crash == nil {
+		w.crash = &runner{u: w.u, name: "sqlite", crashDB: true, limit: 48}
 	}
-	return string(h.Sum(nil))
+	return w.crash
 }
 
 // checkEventResult compares the outcome of a fault-free execution that already happened.
@@ -779,6 +829,9 @@ func buildPlan(u *wl.Universe, o *core.Options) *plan {
 			}
 		}
 	}
+	if os.Getenv("VERIF_C12_SKIP_BFS") != "" { // debugging aid only
+		p.units = nil
+	}
 	lv4 := p.lv
 	if len(lv4) > p.depth4+1 {
 		lv4 = lv4[:p.depth4+1]
@@ -786,9 +839,12 @@ func buildPlan(u *wl.Universe, o *core.Options) *plan {
 	for d, l := range lv4 {
 		ss := l
 		if d >= 2 {
-			ss = perContent(u, l, 2)
+			ss = newContents(u, lv4[:d], l)
 		}
 		for _, s := range ss {
+			if !o.Thorough() && s.ref.Cur[2] >= 0 {
+				continue // quick: E4 histories leave tuple key 2 absent (16 of the 37 states)
+			}
 			p.e4States++
 			for _, e := range p.events {
 				if e.OnDup == "error" || e.OnMiss == "error" {
@@ -829,13 +885,16 @@ func runShard(u *wl.Universe, o *core.Options, p *plan, c *wl.Collector) {
 		if c.Expired() {
 			return
 		}
+		t0 := time.Now()
 		if i >= len(p.units) {
 			runE4(ctx, u, o, get("sqlite"), p.e4[i-len(p.units)], c, sk)
+			c.Count("busy_ms:e4", time.Since(t0).Milliseconds())
 			continue
 		}
 		un := p.units[i]
 		st := newStats()
 		get(un.backend).runState(ctx, un.s, un.evs, st, sk)
+		c.Count("busy_ms:bfs_"+un.backend, time.Since(t0).Milliseconds())
 		st.into(c)
 		c.Count("bfs_executions", st.evals)
 		if un.first {
@@ -859,7 +918,7 @@ func runShard(u *wl.Universe, o *core.Options, p *plan, c *wl.Collector) {
 
 func runE4(ctx context.Context, u *wl.Universe, o *core.Options, w *runner, j e4job, c *wl.Collector, sk *sink) {
 	st := newStats()
-	devs := w.e4Event(ctx, j.s.hist, j.s.ref, j.e, o.Thorough(), st)
+	devs := w.e4Event(ctx, j.s.hist, j.s.ref, j.e, o.Thorough() && len(j.s.hist) <= 1, st)
 	st.into(c)
 	if len(devs) == 0 && st.faultRuns >= 10 {
 		r2 := j.s.ref.Clone()
@@ -875,7 +934,7 @@ const rule = "Part (i): breadth-first over Write histories; a state is (store co
 	"same key twice x on_missing x on_duplicate, each in {\"\",error,ignore,bogus}; lists naming a key twice only with option pairs (\"\",\"\") and (ignore,ignore)) is executed through " +
 	"commands.WriteCommand on memory and SQLite; success must equal the reference's verdict and Read + ReadChanges must equal the reference after every event. " +
 	"Part (ii): for every history of length <= D4 (one per distinct state) and every request of the alphabet that passes request validation (options in {\"\",ignore}), on SQLite, every driver-level boundary k " +
-	"(BEGIN/QUERY/EXEC/COMMIT/ROLLBACK) of the Write is enumerated as error-before-k, error-after-k (result lost), connection loss (at COMMIT; thorough: at every k) and as crash image " +
+	"(BEGIN/QUERY/EXEC/COMMIT/ROLLBACK) of the Write is enumerated as error-before-k, error-after-k (result lost), connection loss (at COMMIT; thorough: at every k for histories of length <= 1) and as crash image " +
 	"(db, db-wal, db-shm copied at k and after the call returned, reopened by a fresh datastore). A case is distinct by (part, backend, store contents, request, k, mode); " +
 	"non-trivial = the request passes request validation (reaches datastore.Write)."
 
@@ -887,6 +946,7 @@ func Run(o *core.Options) int {
 
 	if i, n, out, dl, ok := wl.ShardEnv(); ok {
 		defer wl.Cleanup()
+		wl.PinAllocator()
 		c := wl.NewShardCollector(i, n, dl)
 		runShard(u, o, buildPlan(u, o), c)
 		return wl.FinishShard(c, out)
@@ -936,9 +996,9 @@ func Run(o *core.Options) int {
 		"work is sharded over single-writer child processes (histories are sequential; openfga's process-global ULID entropy is not shared between histories)",
 		"a deviation counts when 5 re-executions of the recorded case reproduce it; others are listed as anomalies")
 	if o.Thorough() {
-		r.Assume("thorough, SQLite only: the deepest BFS layer expands up to 3 histories per distinct store contents (a Write never reads the changelog table); memory expands every (contents, changelog) state. E4 depth-2 histories: up to 2 per distinct store contents")
+		r.Assume("thorough, SQLite only: the deepest BFS layer expands up to 3 histories per distinct store contents (a Write never reads the changelog table); memory expands every (contents, changelog) state. E4 length-2 histories: one per store content that no shorter history reaches (the 27 three-tuple contents), connection loss at every boundary for histories of length <= 1 and at COMMIT for length 2")
 	} else {
-		r.Assume("quick: E4 requests name tuple keys 0 and 1 and write conditions {none, cx{x:1}} (histories range over the whole universe); on SQLite the alias spelling \"error\" of the options is run from the empty store only (memory runs it everywhere). thorough lifts both restrictions")
+		r.Assume("quick: E4 requests name tuple keys 0 and 1 and write conditions {none, cx{x:1}} and start from the 16 histories of length <= 1 that leave key 2 absent; on SQLite the alias spelling \"error\" of the options is run from the empty store only (memory runs it everywhere). thorough lifts both restrictions")
 	}
 
 	cs, err := wl.RunShards(o, tag, o.Workers, start)
